@@ -11,13 +11,14 @@ def Acc.add (acc : Acc) (cs : List Box) : Acc :=
   { childContexts := acc.childContexts ++ participants cs
     blocks := acc.blocks ++ flowBlocks cs
     floats := acc.floats ++ floatsOf cs
-    blocksAndCells := acc.blocksAndCells ++ flowLines cs }
+    blocksAndCells := acc.blocksAndCells ++ flowLines cs
+    kept := acc.kept ++ flowAll cs }
 
 theorem insertAt_append {α : Type} (a r : List α) (x : α) : insertAt (a ++ r) a.length x = a ++ x :: r := by
   simp [insertAt]
 
 theorem Acc.add_nil (acc : Acc) : acc.add [] = acc := by
-  simp [Acc.add, participants, flowBlocks, floatsOf, flowLines]
+  simp [Acc.add, participants, flowBlocks, floatsOf, flowLines, flowAll]
 
 theorem participants_cons_nil (b : Box) (rest : List Box) :
     participants (b :: rest) = participants [b] ++ participants rest := by
@@ -35,26 +36,28 @@ theorem flowLines_cons_nil (b : Box) (rest : List Box) :
     flowLines (b :: rest) = flowLines [b] ++ flowLines rest := by
   cases b; simp [flowLines]
 
+theorem flowAll_cons_nil (b : Box) (rest : List Box) :
+    flowAll (b :: rest) = flowAll [b] ++ flowAll rest := by
+  cases b; simp [flowAll]
+
 theorem Acc.add_cons (acc : Acc) (b : Box) (rest : List Box) :
     acc.add (b :: rest) = (acc.add [b]).add rest := by
   simp only [Acc.add]
-  rw [participants_cons_nil, flowBlocks_cons_nil, floatsOf_cons_nil, flowLines_cons_nil]
+  rw [participants_cons_nil, flowBlocks_cons_nil, floatsOf_cons_nil, flowLines_cons_nil, flowAll_cons_nil]
   simp [List.append_assoc]
 
 /-- a real context, given that dispatching its children computes the spec's traversals -/
-theorem ctx_none_of (id : Nat) (p : Bool) (z : Option Int) (f c bl ib hl : Bool) (children : List Box)
+theorem ctx_none_of (id : Nat) (pr : BProps) (children : List Box)
     (h : ∀ acc, dispatchChildren children acc = acc.add children) :
-    ctxOfBox (.mk id p z f c bl ib hl children) none = (specReal (.mk id p z f c bl ib hl children), []) := by
-  cases hl <;> simp [ctxOfBox, h, Acc.add, finishCtx, drawCtx, specReal, Box.id, Box.blockLevel, Box.inlineBlock, Box.hasLines,
-    List.append_assoc]
+    ctxOfBox (.mk id pr children) none = (specReal (.mk id pr children), []) := by
+  simp [ctxOfBox, h, Acc.add, finishCtx, drawCtx, specReal, layers, List.append_assoc]
 
 /-- a fake context (positioned z-index:auto box, float, inline-block) -/
-theorem ctx_some_of (id : Nat) (p : Bool) (z : Option Int) (f c bl ib hl : Bool) (children : List Box) (cc : List CCtx)
+theorem ctx_some_of (id : Nat) (pr : BProps) (children : List Box) (cc : List CCtx)
     (h : ∀ acc, dispatchChildren children acc = acc.add children) :
-    ctxOfBox (.mk id p z f c bl ib hl children) (some cc)
-      = (specPseudo (.mk id p z f c bl ib hl children), cc ++ participants children) := by
-  cases hl <;> simp [ctxOfBox, h, Acc.add, finishCtx, drawCtx, specPseudo, sortZ, Box.id, Box.blockLevel, Box.inlineBlock, Box.hasLines,
-    List.append_assoc]
+    ctxOfBox (.mk id pr children) (some cc)
+      = (specPseudo (.mk id pr children), cc ++ participants children) := by
+  simp [ctxOfBox, h, Acc.add, finishCtx, drawCtx, specPseudo, layers, sortZ, List.append_assoc]
 
 mutual
   theorem dispatchChildren_eq : ∀ (cs : List Box) (acc : Acc), dispatchChildren cs acc = acc.add cs
@@ -63,32 +66,28 @@ mutual
       rw [dispatchChildren, dispatch_eq ch acc, dispatchChildren_eq rest, ← Acc.add_cons]
 
   theorem dispatch_eq : ∀ (b : Box) (acc : Acc), dispatch b acc = acc.add [b]
-    | .mk id p z f c bl ib hl children, acc => by
+    | .mk id pr children, acc => by
       have hch := dispatchChildren_eq children
-      have hn := ctx_none_of id p z f c bl ib hl children hch
-      have hs := fun cc => ctx_some_of id p z f c bl ib hl children cc hch
-      by_cases hm : (Box.mk id p z f c bl ib hl children).makesContext = true
-      · simp [dispatch, hm, hn, Acc.add, participants, flowBlocks, floatsOf, flowLines, Box.inFlow, Box.specZ, Box.zIndex,
-          Box.positioned, Box.z]
-      · have hm' : (Box.mk id p z f c bl ib hl children).makesContext = false := by simpa using hm
-        cases p with
-        | true =>
-          simp [dispatch, hm', hs, insertAt_append, Acc.add, participants, flowBlocks, floatsOf, flowLines, Box.inFlow,
-            Box.positioned]
-        | false =>
-          cases f with
-          | true =>
-            simp [dispatch, hm', hs, Acc.add, participants, flowBlocks, floatsOf, flowLines, Box.inFlow,
-              Box.positioned, Box.floated]
-          | false =>
-            cases ib with
-            | true =>
-              simp [dispatch, hm', hs, Acc.add, participants, flowBlocks, floatsOf, flowLines, Box.inFlow,
-                Box.positioned, Box.floated, Box.inlineBlock]
-            | false =>
-              cases bl <;> cases hl <;>
-                simp [dispatch, hm', hch, insertAt_append, Acc.add, participants, flowBlocks, floatsOf, flowLines,
-                  Box.inFlow, Box.positioned, Box.floated, Box.inlineBlock, List.append_assoc]
+      have hn := ctx_none_of id pr children hch
+      have hs := fun cc => ctx_some_of id pr children cc hch
+      by_cases hm : pr.makesContext = true
+      · simp [dispatch, hm, hn, Acc.add, participants, flowBlocks, floatsOf, flowLines, flowAll, BProps.inFlow,
+          BProps.specZ, BProps.zIndex]
+      · have hm' : pr.makesContext = false := by simpa using hm
+        by_cases hp : pr.positioned = true
+        · simp [dispatch, hm', hp, hs, insertAt_append, Acc.add, participants, flowBlocks, floatsOf, flowLines, flowAll,
+            BProps.inFlow]
+        · have hp' : pr.positioned = false := by simpa using hp
+          by_cases hf : pr.floated = true
+          · simp [dispatch, hm', hp', hf, hs, Acc.add, participants, flowBlocks, floatsOf, flowLines, flowAll, BProps.inFlow]
+          · have hf' : pr.floated = false := by simpa using hf
+            by_cases hi : pr.inlineBlock = true
+            · simp [dispatch, hm', hp', hf', hi, hs, Acc.add, participants, flowBlocks, floatsOf, flowLines, flowAll,
+                BProps.inFlow]
+            · have hi' : pr.inlineBlock = false := by simpa using hi
+              cases hb : pr.blockLevel <;> cases hl : pr.hasLines <;>
+                simp [dispatch, hm', hp', hf', hi', hb, hl, hch, insertAt_append, Acc.add, participants, flowBlocks,
+                  floatsOf, flowLines, flowAll, BProps.inFlow, List.append_assoc]
 end
 
 end WR.C16
